@@ -18,6 +18,16 @@ def bounded_inputs(run, n, count, reps=None):
         yield d
 
 
+def _two_tag_inputs(run, n, count):
+    for d in bounded_inputs(run, n, count):
+        e = dict(d)
+        for k, v in d.items():
+            if k.startswith("slo") or k.startswith("sup"):
+                e["a" + k] = v
+                e["b" + k] = float(run.rng.randint(-9, 9))
+        yield e
+
+
 def family_inputs(run, n, count):
     """Hidden games from the repository's own SAM families (coverage / budget / XOS / XS / OXS)."""
     import numpy as np
@@ -50,7 +60,10 @@ def main(run):
                       fallback=(lambda n=n: all(run.bounded_run(f"fallback.cut[n={n},r={r}]", S.sc_sam_cut, {"n": n},
                                                                 bounded_inputs(run, n, 30, reps=r), bound="30 seeded SAM games x K")
                                                 for r in (0, 1, 2, 3, 10, 100))))
-        run.prove(f"final_pass_antitone[n={n}]", S.sc_sam_final_antitone, {"n": n}, pkg=cut)
+        run.prove(f"final_pass_antitone[n={n}]", S.sc_sam_final_antitone, {"n": n}, pkg=cut,
+                  fallback=(lambda n=n: all(run.bounded_run(f"fallback.more_reps[n={n},r={r}]", S.sc_sam_more_reps, {"n": n, "reps": r},
+                                                            _two_tag_inputs(run, n, 40), bound="40 seeded SAM games x K, r vs r+1")
+                                            for r in (0, 1, 2, 5))))
     if run.tier == "thorough":
         n = 5
         run.prove(f"unrolled[n={n},r=0]", S.sc_sam, {"n": n, "reps": 0})
